@@ -133,7 +133,7 @@ def main():
         info = g.infos[0]
         ws = set(info["wswords"])
         lines = sorted(g.traces, key=lambda t: (t["kind"], json.dumps(t.get("pre") or t.get("tree"), sort_keys=True)))
-        reps_seq, reps_tree, variants = (16, 16, 5) if thorough else (2, 16, 3)
+        reps_seq, reps_tree, variants = (16, 16, 5) if thorough else (4, 16, 5)
         args = ["condsyn-replay", "-reps-seq", str(reps_seq), "-reps-tree", str(reps_tree), "-variants", str(variants), "-workers", "4"]
         rc, outs, _ = vlib.run_vh(vh, args, stdin_lines=[json.dumps(info)] + [json.dumps(t, separators=(",", ":")) for t in lines],
                                   timeout=3000)
